@@ -98,18 +98,35 @@ def _filter_safe(rows, qbits):
     return rows[ok].float().contiguous()
 
 
+BIG_V = 16             # vocabularies beyond this: rows with pairwise DISTINCT logits, fewer rows per table
+
+
 def safe_rows(V, qbits, kind):
-    """A fixed pseudo-random table of logit rows (multiples of 1/64 in [-6, 0]) per (V, qbits, kind).
+    """A fixed pseudo-random table of logit rows per (V, qbits, kind).
     kind: "plain" | "zeros" (every row has at least one -inf and one finite entry) |
-    ("favour", e) (entry e is 0, the others are <= -3). Deterministic; cached."""
+    ("favour", e) (entry e is 0, the others are <= -3). Deterministic; cached.
+    V <= 16: multiples of 1/64 in [-6, 0], 6000 candidate rows. Larger vocabularies (size classes): 192
+    candidate rows whose V logits are pairwise different multiples of 1/64 in [-max(385, 3V)/64, 0] (with 385
+    values for a thousand tokens every row would be full of exact ties).
+    All logits of a row are multiples of 1/64, so log_softmax shifts them by ONE constant: whether a row
+    stays clear of the rounding boundaries of the 2^-qbits grid is a single condition per row, whatever V is
+    (about three rows in four pass)."""
     import numpy as np
     import torch
     key = (V, qbits, kind)
     if key in _rows_cache:
         return _rows_cache[key]
     rs = np.random.RandomState(977 + 31 * V + (0 if kind == "plain" else 7 if kind == "zeros" else 13 + kind[1]))
-    n = 6000
-    rows = -rs.randint(0, 385, size=(n, V)).astype("float64") / 64.0
+    big = V > BIG_V
+    n = 192 if big else 6000
+
+    def draw(hi):
+        if not big:
+            return rs.randint(0, hi, size=(n, V)).astype("float64")
+        R = max(hi, 3 * V)      # a sample of V different values out of R, per row
+        return rs.rand(n, R).argsort(1)[:, :V].astype("float64")
+    if kind in ("plain", "zeros"):
+        rows = -draw(385) / 64.0
     if kind == "zeros":
         mask = rs.rand(n, V) < 0.4
         mask[np.arange(n), rs.randint(0, V, size=n)] = True
@@ -118,10 +135,10 @@ def safe_rows(V, qbits, kind):
         rows = rows[np.isinf(rows).any(1) & ~np.isinf(rows).all(1)]
     elif kind != "plain":
         e = kind[1]
-        rows = -3.0 - rs.randint(0, 193, size=(n, V)).astype("float64") / 64.0
+        rows = -3.0 - draw(193) / 64.0
         rows[:, e] = 0.0
     out = _filter_safe(torch.tensor(rows, dtype=torch.float64), qbits)
-    assert out.size(0) >= 1 if V == 1 else out.size(0) >= 64, (key, out.size(0))
+    assert out.size(0) >= 1 if V == 1 else out.size(0) >= (32 if big else 64), (key, out.size(0))
     _rows_cache[key] = out
     return out
 
@@ -149,9 +166,10 @@ def _hash_lm(V, qbits, opts, salt=0, dtype="float32", delta=None):
             super().__init__(V)
             self.rows = safe_rows(V, qbits, "plain")
             self.zrows = safe_rows(V, qbits, "zeros") if opts.get("zeros") and V > 1 else None
-            # rows that favour token e: 0 for e, at most -3 for the others
-            self.frows = [safe_rows(V, qbits, ("favour", e)) for e in range(V)]
+            # rows that favour token e (0 for e, at most -3 for the others) are fetched when a batch element
+            # asks for them (`safe_rows` caches; a thousand tables for a thousand tokens are never needed)
             self.calls = []
+            self.hists = [] if opts.get("lazy") else None
 
         def update_input(self, prev, hist):
             if "h" in prev:
@@ -168,13 +186,15 @@ def _hash_lm(V, qbits, opts, salt=0, dtype="float32", delta=None):
 
         def calc_idx_log_probs(self, hist, prev, idx):
             i = int(idx)
-            if i > DEPTH_CAP:
+            if i > opts.get("cap", DEPTH_CAP):
                 raise RuntimeError("harness LM: depth cap exceeded (search does not terminate)")
             h, ctx = prev["h"], prev["ctx"]
             if i > 0:
                 tok = hist[i - 1]          # IndexError if idx is beyond the history (contract)
                 h = (h * 48271 + (tok + 1) * 69621 + 12345) % P
             self.calls.append((i, hist.size(0), hist.size(1)))
+            if self.hists is not None:
+                self.hists.append(hist[:i].clone())
             sel = (h * 40692 + ctx[:, 1] * 40014 + 7 + 104729 * salt) % P
             if opts.get("uniform"):
                 logits = torch.zeros((hist.size(1), V), dtype=torch.float32)
@@ -191,11 +211,10 @@ def _hash_lm(V, qbits, opts, salt=0, dtype="float32", delta=None):
                     forced.scatter_(1, e.unsqueeze(1), 0.0)
                 else:
                     forced = torch.zeros((hist.size(1), V), dtype=torch.float32)
-                    for ev in range(V):
+                    for ev in sorted(set(int(x) for x in e[force])):
                         m = e == ev
-                        if bool(m.any()):
-                            fr_ = self.frows[ev]
-                            forced[m] = fr_.index_select(0, sel[m] % fr_.size(0))
+                        fr_ = safe_rows(V, qbits, ("favour", ev))
+                        forced[m] = fr_.index_select(0, sel[m] % fr_.size(0))
                 logits = torch.where(force.unsqueeze(1), forced, logits)
             if opts.get("scale"):
                 # large-magnitude logits (exact: a power of two): log-probabilities of -100 .. -800, where
@@ -262,6 +281,7 @@ def _rec_lm(V, opts):
             self.register_buffer("bias", torch.tensor(
                 rs.randint(-96, 1, size=(V,)) / 29.0, dtype=torch.float64))
             self.calls = []
+            self.hists = [] if opts.get("lazy") else None
 
         def update_input(self, prev, hist):
             if "ctx" in prev and "h" in prev:
@@ -277,13 +297,15 @@ def _rec_lm(V, opts):
 
         def calc_idx_log_probs(self, hist, prev, idx):
             i = int(idx)
-            if i > DEPTH_CAP:
+            if i > opts.get("cap", DEPTH_CAP):
                 raise RuntimeError("harness LM: depth cap exceeded (search does not terminate)")
             h, ctx = prev["h"], prev["ctx"]
             if i > 0:
                 tok = hist[i - 1]
                 h = h * self.a + self.emb.index_select(0, tok)
             self.calls.append((i, hist.size(0), hist.size(1)))
+            if self.hists is not None:
+                self.hists.append(hist[:i].clone())
             logits = self.bias.unsqueeze(0) + h[:, 0:1] * self.out[0]
             for j in range(1, REC_H):
                 logits = logits + h[:, j:j + 1] * self.out[j]
@@ -317,18 +339,33 @@ def _rec_lm(V, opts):
 
 def lookup_dicts(V, order, sos, seed):
     """A random sparse back-off n-gram table (every in-vocabulary unigram present and finite, so every
-    row the model produces has finite entries). Values are multiples of 1/8."""
+    row the model produces has finite entries). Values are multiples of 1/8 (V <= 16; all n-grams are
+    considered, 55 % kept) or, for large vocabularies, multiples of 2^-12 in (-16, 0] (a thousand tokens
+    on 49 values would be nothing but ties) with 4V sampled n-grams per order."""
     import random
     rng = random.Random(seed)
     shift = 0 if 0 <= sos < V else 1
     toks = list(range(V))
     ctx_toks = toks + ([sos] if shift else [])
+    big = V > BIG_V
 
     def lp():
-        return -rng.randrange(0, 49) / 8.0
+        return -rng.randrange(0, 1 << 16) / 4096.0 if big else -rng.randrange(0, 49) / 8.0
 
     def lb():
         return -rng.randrange(0, 9) / 8.0
+
+    def keys(n):
+        if not big:
+            return itertools.product(*([ctx_toks] * (n - 1) + [toks]))
+        out = set()
+        for _ in range(4 * V):
+            body = [rng.choice(toks) for _ in range(n - 1)]
+            if shift and rng.random() < 0.2:        # sos only as a (repeated) prefix of the context
+                for i in range(rng.randrange(1, n)):
+                    body[i] = sos
+            out.add(tuple(body + [rng.choice(toks)]))
+        return sorted(out)
     dicts = []
     for n in range(1, order + 1):
         d = {}
@@ -336,14 +373,14 @@ def lookup_dicts(V, order, sos, seed):
             for t in ctx_toks:
                 d[t] = lp() if order == 1 else (lp(), lb())
         else:
-            for key in itertools.product(*([ctx_toks] * (n - 1) + [toks])):
+            for key in keys(n):
                 # sos only as a (repeated) prefix of the context
                 body = list(key[:-1])
                 while body and body[0] == sos and shift:
                     body.pop(0)
                 if shift and sos in body:
                     continue
-                if rng.random() < 0.55:
+                if big or rng.random() < 0.55:
                     d[key] = lp() if n == order else (lp(), lb())
             if not d:        # the library refuses an empty table of the highest order
                 key = tuple([toks[0]] * n)
@@ -366,24 +403,28 @@ def make_lm(V, qbits, opts):
         from pydrobert.torch.modules import (ExtractableShallowFusionLanguageModel,
                                              MixableShallowFusionLanguageModel)
         first = _hash_lm(V, qbits, opts, 0, lm_dtype(opts), neartie_delta(opts))
-        second = _hash_lm(V, qbits, {"view": opts.get("view"), "scale": opts.get("scale")}, 1,
-                          lm_dtype(opts, "dtype2"))
+        second = _hash_lm(V, qbits, {"view": opts.get("view"), "scale": opts.get("scale"),
+                                     "cap": opts.get("cap", DEPTH_CAP)}, 1, lm_dtype(opts, "dtype2"))
         cls = MixableShallowFusionLanguageModel if kind == "mixfusion" else ExtractableShallowFusionLanguageModel
         lm = cls(first, second, float(opts.get("beta", 0.5)))
         lm.calls = first.calls
+        lm.hists = first.hists
         return lm
     if kind == "lookup":
         from pydrobert.torch.modules import LookupLanguageModel
 
         class RecLookup(LookupLanguageModel):
             def calc_idx_log_probs(self, hist, prev, idx):
-                if int(idx) > DEPTH_CAP:
+                if int(idx) > opts.get("cap", DEPTH_CAP):
                     raise RuntimeError("harness LM: depth cap exceeded (search does not terminate)")
                 self.calls.append((int(idx), hist.size(0), hist.size(1)))
+                if self.hists is not None:
+                    self.hists.append(hist[:int(idx)].clone())
                 return super().calc_idx_log_probs(hist, prev, idx)
         sos = opts.get("sos", -1)
         lm = RecLookup(V, sos, lookup_dicts(V, opts.get("order", 2), sos, opts.get("table_seed", 1)))
         lm.calls = []
+        lm.hists = [] if opts.get("lazy") else None
         if lm_dtype(opts) != "float32":
             lm = lm.to(tdtype(lm_dtype(opts)))     # what a user does: module.double() / .half()
         return lm
@@ -440,6 +481,58 @@ def build_table(lm, ctx_row, qbits, depth, eos_tok, opts=None, quant=True):
 
     rec([], prev0)
     return table
+
+
+class LazyTable:
+    """history -> scores like `build_table` (the language model run UNBATCHED, one row, along the history,
+    its state threaded from the start), but a history's row is computed when it is first asked for and kept.
+    For the size classes (vocabularies of a thousand tokens, step limits of dozens) the full tree of
+    histories cannot be enumerated; what is asked for: every history the searched model was called on,
+    every prefix of a returned path, whatever the predicates look up.  The Lean model gets the rows known
+    at that point and reports a live history it needs and does not find (`flags.missing`).
+    Keys never contain eos (`build_table` does not expand below eos either), tokens are in the vocabulary,
+    length <= depth; anything else is answered with None."""
+
+    def __init__(self, lm, ctx_row, qbits, depth, eos_tok, opts=None, quant=True):
+        import torch
+        self.lm, self.qbits, self.depth, self.eos, self.quant = lm, qbits, depth, eos_tok, quant
+        self.V = lm.vocab_size
+        init = initial_state(opts or {}, ctx_row.reshape(1, 4))
+        self.prev0 = lm.update_input(dict() if init is None else init, torch.empty((0, 1), dtype=torch.long))
+        self.rows = {}       # history -> [float] * V
+        self.nxt = {}        # history -> the state the model returned after scoring it
+
+    def get(self, hist, default=None):
+        import torch
+        hist = tuple(int(x) for x in hist)
+        if hist in self.rows:
+            return self.rows[hist]
+        if len(hist) > self.depth or any(not (0 <= x < self.V) or x == self.eos for x in hist):
+            return default
+        # state before scoring `hist` = state returned after scoring its parent (iteratively from the
+        # longest known prefix: step limits of dozens must not recurse)
+        k = len(hist)
+        while k > 0 and hist[:k - 1] not in self.nxt:
+            k -= 1
+        for j in range(k, len(hist) + 1):
+            h = hist[:j]
+            if h in self.rows:
+                continue
+            prev = self.prev0 if j == 0 else self.nxt[h[:-1]]
+            ht = torch.tensor(h, dtype=torch.long).reshape(j, 1)
+            logits, nxt = self.lm.calc_idx_log_probs(ht, prev, torch.tensor(j))
+            sc = logits.log_softmax(-1)
+            if self.quant:
+                sc = quantise(sc, self.qbits)
+            self.rows[h] = sc[0].tolist()
+            self.nxt[h] = nxt
+        return self.rows[hist]
+
+    def items(self):
+        return self.rows.items()
+
+    def __len__(self):
+        return len(self.rows)
 
 
 def make_search(lm, width, eos, finish_all, pad, qbits, via):
